@@ -467,14 +467,15 @@ def policyOracle (k : Nat) : Oracle := fun tr =>
 /-! ## Script machine for the driver (`encwin.script`, hook `verif_hooks::lz_window_script`)
 
 One operation per pair `(op, n)`, exactly what the hook does with the real `LZEncoder`:
-* `(0, n)` – one `fill_window` call with `n` bytes offered (the bytes used are NOT offered again);
+* `(0, n)` – one `fill_window` call with `n` bytes offered (the bytes used are NOT offered again; `fill_window` takes
+  at most `buf_size - write_pos` of them, so the model offers `min(n, buf_size)`);
 * `(1, _)` – `set_flushing`;  `(2, _)` – `set_finishing`;
 * `(3, n)` – at most `n` times: `if has_enough_data(0) { skip(1) }` (one `move_pos`; like an encoder that codes
   literals only, `read_ahead = -1`).
 After every operation the positions `(read_pos, read_limit, write_pos, pending_size)` are logged. -/
 
 def scriptStep (P : Params) (s : St Unit) : Nat × Nat → St Unit
-  | (0, n) => if s.win.finishing then s else (fillWindow noBuf P s (List.replicate n 0)).1
+  | (0, n) => if s.win.finishing then s else (fillWindow noBuf P s (List.replicate (min n P.bufSize) 0)).1
   | (1, _) => setFlushing noBuf P s
   | (2, _) => setFinishing noBuf P s
   | (_, n) =>
